@@ -47,9 +47,11 @@ theorem creator_pc_iff (pc : Pc) (k : Nat) :
     pc.claim = some (k, .creator) ↔ ∃ r, pc = .alWaker r k ∨ pc = .alFirst r k ∨ pc = .alBuf r k := by
   cases pc <;> simp [Pc.claim]
 
-/-- The RX claim: `receive_frame` between `claim_receiving` and `mark_received` (sites 30, 31). -/
+/-- The RX claim: `receive_frame` from `claim_receiving` until `mark_received`, the hand-back
+    (`RxBusy → Sent` after the marker re-check failed) or an error return. -/
 theorem rx_pc_iff (pc : Pc) (k : Nat) :
-    pc.claim = some (k, .rx) ↔ (∃ p, pc = .rxCopy k p) ∨ pc = .rxMark k := by
+    pc.claim = some (k, .rx) ↔
+      (∃ p idx, pc = .rxVerify k p idx) ∨ pc = .rxUnclaim k ∨ (∃ p, pc = .rxCopy k p) ∨ pc = .rxMark k := by
   cases pc <;> simp [Pc.claim]
 
 /-- Who is inside slot `k`, in terms of program counters and handle kinds. -/
@@ -58,7 +60,8 @@ theorem inside_iff (t : Thread) (k : Nat) :
       ((∃ r, t.pc = .alWaker r k ∨ t.pc = .alFirst r k ∨ t.pc = .alBuf r k) ∨
         ∃ h ∈ t.regs, h.slot = k ∧ ∃ c l, h.kind = .created c l) ∨
       (∃ h ∈ t.regs, h.slot = k ∧ h.kind = .sendable) ∨
-      ((∃ p, t.pc = .rxCopy k p) ∨ t.pc = .rxMark k) ∨
+      ((∃ p idx, t.pc = .rxVerify k p idx) ∨ t.pc = .rxUnclaim k ∨ (∃ p, t.pc = .rxCopy k p) ∨
+        t.pc = .rxMark k) ∨
       (∃ h ∈ t.regs, h.slot = k ∧ (h.kind = .received ∨ ∃ o l w, h.kind = .view o l w)) := by
   have hc : ∀ K : HK, roleOf K = .creator ↔ ∃ c l, K = .created c l := by intro K; cases K <;> simp [roleOf]
   have ht : ∀ K : HK, roleOf K = .tx ↔ K = .sendable := by intro K; cases K <;> simp [roleOf]
@@ -77,7 +80,7 @@ theorem inside_iff (t : Thread) (k : Nat) :
 theorem micro_inv_init (n data fi pi : Nat) (progs : List (List String)) (hn : 0 < n) :
     MInv (initWorld n data fi pi progs) := MInv_init n data fi pi progs hn
 
-/-- **MInv is preserved by every granted step** of every thread at every program counter (34 program
+/-- **MInv is preserved by every granted step** of every thread at every program counter (36 program
     counters, each with all its branches), unless the step abandons a request inside the window. -/
 theorem micro_inv_step (w w' : MWorld) (tid : Nat) (hI : MInv w) (hna : ¬ AbandonInsideStep w tid)
     (hs : Micro.step w tid = some w') : MInv w' := hI.step hna hs
